@@ -4,7 +4,7 @@ Theorems: lean/CbProps/C18.lean on the mechanism model CbModel/Imports.lean (exa
 hidden items stay unresolvable, a second import is a no-op, after any import list a name resolves iff an imported
 module exports it, order and repetition are irrelevant).
 Tie: generated module sets (<= 5 modules in nested directories, each exporting / hiding a random subset of
-functions with statics (called by their plain name and, for single-component module names, also as m.f), constants, structs with interface + impl, enums, typedefs; modules import each other (incl. self-imports and import cycles):
+functions with statics (called by their plain name and, for single-component module names, also as m.f), constants, exported global variables with a function that changes them, structs with interface + impl, enums, typedefs; modules import each other (incl. self-imports and import cycles):
 chains and diamonds).  (P) the importing program uses every item the model says is visible: its output must equal
 the single-file program with all definitions inlined, for several permutations / duplications of the import list;
 (N) a program naming one item the model says is NOT visible (hidden, or exported by a module that is not imported)
@@ -20,7 +20,7 @@ THEOREMS = {"CbProps.C18": ["CbProps.C18." + t for t in [
     "import_exact", "hidden_not_visible", "import_idempotent", "lookup_after_imports",
     "imports_order_and_repetition_irrelevant"]]}
 
-KINDS = ["func", "const", "struct", "enum", "typedef"]
+KINDS = ["func", "const", "struct", "enum", "typedef", "gvar"]
 DIRS = ["", "a", "a.b", "lib", "lib.x.y"]
 
 
@@ -37,6 +37,9 @@ class Item:
             return "%sint %s(int a) {\n    static int calls = 0;\n    calls++;\n    return %sa * %d + calls;\n}\n" % (e, n, inner, p[0])
         if self.kind == "const":
             return "%sconst int %s = %d;\n" % (e, n, p[0])
+        if self.kind == "gvar":
+            # exported mutable state with an exported function that changes it
+            return "%sint %s = %d;\n%sint bump%s(int d) {\n    %s = %s + d;\n    return %s;\n}\n" % (e, n, p[0] * 10, e, n, n, n, n)
         if self.kind == "struct":
             return ("%sstruct %s { int x; int y; };\n%sinterface I%s { int area%s(); }\n%simpl I%s for %s {\n    int area%s() { return self.x * self.y + %d; }\n}\n"
                     "%svoid set%s(%s* q, int v) {\n    q->x = v;\n}\n"
@@ -58,6 +61,8 @@ class Item:
             return "    println(\"%s\", %s(%d));\n" % (n, n, k)
         if self.kind == "const":
             return "    println(\"%s\", %s);\n" % (n, n)
+        if self.kind == "gvar":
+            return "    println(\"%s\", %s);\n    println(\"%s\", bump%s(%d));\n    println(\"%s\", %s);\n" % (n, n, n, n, k + 1, n, n)
         if self.kind == "struct":
             return ("    %s v%d;\n    v%d.x = %d;\n    v%d.y = 3;\n    println(\"%s\", v%d.x, v%d.area%s());\n" % (n, k, k, k + 2, k, n, k, k, n) +
                     "    %s* pv%d = &v%d;\n    pv%d->y = %d;\n    set%s(&v%d, %d);\n    println(\"%s\", v%d.x, v%d.y, pv%d->x, v%d.area%s());\n" % (
@@ -87,7 +92,7 @@ def gen_modules(r, prefix):
         for j in range(r.range(1, 5)):
             kind = r.choice(KINDS) if j else "func"
             body[0] += 1
-            name = {"func": "f", "const": "K", "struct": "S", "enum": "E", "typedef": "T"}[kind] + "%d_%d" % (i, j)
+            name = {"func": "f", "const": "K", "struct": "S", "enum": "E", "typedef": "T", "gvar": "G"}[kind] + "%d_%d" % (i, j)
             exported = r.chance(60)
             callee = None
             if kind == "func" and imports and r.chance(50):
@@ -207,8 +212,27 @@ def main(a):
             return mm.path if (it.kind == "func" and "." not in mm.path and mm.path in imports) else None
         uses = "".join(it.use(3 * k, qual_of(mm, it)) for k, (mm, it) in enumerate(visible))
         uses_twin = "".join(it.use(3 * k, "" if qual_of(mm, it) else None) for k, (mm, it) in enumerate(visible))
-        body = "int main() {\n" + uses + "    println(\"END\");\n    return 0;\n}\n"
-        twin = inlined(mods, "int main() {\n" + uses_twin + "    println(\"END\");\n    return 0;\n}\n")
+        # selective form `import m { a, b };` listing every visible name of m (modules whose visible items are functions,
+        # constants and global variables only): equivalent to `import m;` for this program.  A selective import is also repeated
+        # INSIDE main after the module's state has changed: importing again must not re-run the module's initialisers
+        by_mod = {}
+        for (mm, it) in visible:
+            by_mod.setdefault(mm.path, []).append(it)
+        sel = {}
+        for pth, its in by_mod.items():
+            if all(it.kind in ("func", "const", "gvar") for it in its) and pth in imports:
+                names_ = []
+                for it in its:
+                    names_ += [it.name] + (["bump" + it.name] if it.kind == "gvar" else [])
+                sel[pth] = "import %s { %s };\n" % (pth, ", ".join(names_))
+        reimport, recheck = "", ""
+        for pth, its in by_mod.items():
+            gv = [it for it in its if it.kind == "gvar"]
+            if gv and pth in sel and r.chance(60):
+                reimport += "    " + sel[pth]
+                recheck += "".join("    println(\"again %s\", %s);\n" % (it.name, it.name) for it in gv)
+        body = "int main() {\n" + uses + reimport + recheck + "    println(\"END\");\n    return 0;\n}\n"
+        twin = inlined(mods, "int main() {\n" + uses_twin + recheck + "    println(\"END\");\n    return 0;\n}\n")
         missing = trans_only and (needed_closure(mods, imports) - set(imports))
         cell = "transitive_import_not_loaded" if missing else None
         # several import orders / duplications
@@ -223,7 +247,7 @@ def main(a):
             orders.append(o)
         jobs.append(("twin", (twin, (), {}), None))
         for oi, o in enumerate(orders):
-            prog = "".join("import %s;\n" % p for p in o) + body
+            prog = "".join((sel[p] if (p in sel and r.chance(40)) else "import %s;\n" % p) for p in o) + body
             jobs.append(("pos", (prog, (), files), {"imports": o, "cell": cell, "files": files, "visible": [it.name for _, it in visible]}))
             dist["permutations" if oi else "positive"] += 1
         # negatives: up to 3 invisible items
